@@ -1,0 +1,20 @@
+//go:build verif && linux
+
+// Contracts for package fuse, checked by /verif/govc (see /verif/DESIGN.md).
+// This file contains only comments: it adds no code to any build.
+
+package fuse
+
+// findFile: the first entry whose path equals the argument, or nil if none.
+//@ func findFile
+//@   requires t != nil
+//@   ensures  [found]  $r0 != nil ==> 0 < $i(1) && $i(1) <= len(t.Files) && pathEq(path, t.Files[$i(1)-1].Path) && $r0.Offset == t.Files[$i(1)-1].Offset && $r0.Length == t.Files[$i(1)-1].Length && $r0.Padding == t.Files[$i(1)-1].Padding
+//@   ensures  [first]  $r0 != nil ==> forall j int :: 0 <= j && j < $i(1)-1 ==> !pathEq(path, t.Files[j].Path)
+//@   ensures  [absent] $r0 == nil ==> forall j int :: 0 <= j && j < len(t.Files) ==> !pathEq(path, t.Files[j].Path)
+//@   loop 1
+//@     invariant forall j int :: 0 <= j && j < $i ==> !pathEq(path, t.Files[j].Path)
+//@   props    C20
+
+// (the parameter is called path: the package is reached through an alias-free wrapper)
+//@ spec pathEq(p []string, q []string) bool
+//@   body len(p) == len(q) && (forall k int :: 0 <= k && k < len(p) ==> p[k] == q[k])
